@@ -50,12 +50,13 @@ PROPS["C03"] = {
     "level": "fault_enumeration",
     "budget_s": {"quick": 80, "thorough": 2700},
     "modes": [{"name": "engine", "runs": {"quick": 5000, "thorough": 120000}, "chunk": 250},
-              {"name": "batch", "runs": {"quick": 1500, "thorough": 40000}, "chunk": 250}],
+              {"name": "batch", "runs": {"quick": 1500, "thorough": 40000}, "chunk": 250},
+              {"name": "sql", "runs": {"quick": 2500, "thorough": 60000}, "chunk": 250}],
     "rule": ("one run = one generated case as in C01 (limits non-binding, so that the fault-free answer is one value) executed fault-free under tape sigma (N storage calls, decision D), "
              "then re-executed under the same sigma with ONE fault at storage call k for every k<=N (N<=12 quick / 40 thorough; otherwise a tape-chosen sample of that many positions) x kinds {transient, persistent, ctx}. "
-             "mode engine: CheckRelationTuple; mode batch: BatchCheck of the duplicated query (every entry checked). Oracle: result carries an error or equals D; never allowed when D=denied; an entry with an error never says allowed. "
+             "mode engine: CheckRelationTuple; mode batch: BatchCheck of the duplicated query (every entry checked); mode sql: the fault is injected at the k-th SQL STATEMENT of the check at the driver seam, below pop/popx/sqlcon and keto's persister (io / busy / badconn / ctx; a legally masked fault - database/sql retry, pop retry after a sleep on the simulated clock - passes). Oracle: result carries an error or equals D; never allowed when D=denied; an entry with an error never says allowed. "
              "non-trivial = fault-free run issues >=2 storage calls; distinct = distinct hash of (config, tuples, query). exhaustive over k per case when N<=limit, cases sampled."),
-    "probes": ["fault_transient", "fault_persistent", "fault_ctx", "outcome_error", "outcome_same", "base_allowed", "base_denied", "probe_denied_with_negation", "cases_all_positions"],
+    "probes": ["fault_transient", "fault_persistent", "fault_ctx", "fault_sql_io", "fault_sql_busy", "fault_sql_badconn", "fault_sql_ctx", "faults_masked", "outcome_error", "outcome_same", "base_allowed", "base_denied", "probe_denied_with_negation", "cases_all_positions"],
     "real": REAL_E, "stub": STUB_E + ["storage failures: injected at the relationtuple.Manager / Traverser seam (L1); the SQL-driver seam (L2) variant is a separate mode"],
     "fault_kinds": {"transient": "k-th storage call returns an error instead of calling through", "persistent": "k-th and every later call fail", "ctx": "request context cancelled at the k-th call, which returns context.Canceled"},
     "assumptions": ["fault-free answer of the same schedule is the reference (property statement)", "limits non-binding by R1's criterion", "faults are fail-stop at the storage API"],
